@@ -15,6 +15,7 @@ from vf import env, wnio
 from vf.gen import graphs
 from vf.model.taxo import G, ROOT
 
+ID = 'C14'
 RULE = ('one evaluation = one graph with one labelling and one weight table: all ordered pairs x 6 metrics x simulate_root; distinct = '
         'edge list + labelling + weights seed; non-trivial = the graph has an edge and at least one pair has a common hypernym other than itself')
 ASSUMPTIONS = ['Lin similarity is 2 IC(c0) / (IC(c1) + IC(c2)) (the metric of the paper and the only symmetric reading; the formula printed in the docs has a typo)',
@@ -34,6 +35,7 @@ def plan(tier, seed):
     nr = 120 if tier == 'quick' else 4000
     for start in range(0, nr, 20):
         cases.append({'kind': 'random', 'start': start, 'count': 20, 'posmode': (start // 20) % 4, 'seed': seed})
+    cases.append({'kind': 'pytest-under-contracts'})
     return cases
 
 
@@ -69,6 +71,9 @@ def close(a, b):
 
 
 def run_case(case, rec):
+    if case.get('kind') == 'pytest-under-contracts':
+        from vf import contracts_case
+        return contracts_case.run(rec, ID)
     import wn
     import wn.ic
     from wn import similarity as sim
